@@ -10,6 +10,7 @@ mod common;
 mod c02;
 mod c02_conn;
 mod c03;
+mod c04;
 mod scen;
 mod c11;
 mod c15;
@@ -50,6 +51,7 @@ fn main() {
     let code = match argv[1].as_str() {
         "C02" => c02::run(&args),
         "C03" => c03::run(&args),
+        "C04" => c04::run(&args),
         "C11" => c11::run(&args),
         "C15" => c15::run(&args),
         "C16" => c16::run(&args),
@@ -85,6 +87,7 @@ fn replay(path: &str) -> i32 {
     match prop {
         "C02" => c02::replay(r),
         "C03" => c03::replay(r),
+        "C04" => c04::replay(r),
         "C11" => c11::replay(r),
         "C15" => c15::replay(r),
         "C16" => c16::replay(r),
